@@ -7,7 +7,8 @@ from . import compositelib as L
 OCAML = ["composite"]
 GO = ["composite"]
 PROP = "props/C09.v"
-PROOFS = ["proofs/CompositeC09.v", "proofs/CompositeProgress.v", "proofs/CompositeExact.v"] + L.PROOFS_COMMON
+PROOFS = ["proofs/CompositeC09.v", "proofs/CompositeProgress.v", "proofs/CompositeExact.v", "proofs/CompositeProto.v",
+          "proofs/CompositeMeasure.v", "proofs/CompositeTrace.v", "proofs/CompositeLink2.v"] + L.PROOFS_COMMON
 
 
 def run(run):
@@ -32,8 +33,9 @@ def run(run):
                          "Reload()/nothing injected, both Stop styles, 1 in 6 with a real composite.Runner child), errwin (an old child returns a real error when the reload stops it while the reloader is parked at one of its steps: Run's "
                          "failure teardown meets a reload in progress), c11dup (duplicate entry names incl. two distinct runnables with one String()), "
                          "boot (Reload/Stop/cancel while Run is booting), c11 (unparked reload histories incl. concurrent callers)")
-    run.assumptions += ["children behave like the bundled runnables: contract of coq/model/Composite.v (exit on signal/cancel; "
-                        "Stop either non-blocking or blocking until a Run has started and finished)",
+    run.assumptions += ["every child's Run returns once signalled or cancelled (it may also return earlier, with any result - a failure "
+                        "included; only a Run that never returns is excluded): contract of coq/model/Composite.v; "
+                        "Stop either non-blocking or blocking until a Run has started and finished",
                         "a single Run() per Runner instance"]
 
 
